@@ -323,3 +323,27 @@ Example C20_ex_gateway_addressless :
      {| remote_ip := None; host := [97]; xfh := [66]; path := [47; 112] |})
   = ([47; 120; 47; 112], [47; 120; 47; 112], [47; 121; 47; 112]).
 Proof. vm_compute. reflexivity. Qed.
+
+(* the EMPTY configured realm (challenge `Digest realm=""`) is a realm like any other:
+   C20_digest_wrong_realm and C20_auth_sound quantify over every [realm : str], [] included.
+   Right credentials made for realm "R" are refused by a resource whose realm is "" ... *)
+Example C20_ex_empty_realm_foreign :
+  check_auth (fun _ => None) (fun b => Some b) (fun s => Some s)
+    (fun _ => Some [(s_username, [97]); (s_realm, [82]); (s_nonce, [110]); (s_uri, [47]);
+                    (s_response, [97; 58; 82; 58; 112; 58; 110; 58; 71; 69; 84; 58; 47])])
+    default_enc (Some (s_digest ++ [32; 120])) [71; 69; 84] [] (table_of [([97], [112])])
+  = Refused true.
+Proof. vm_compute. reflexivity. Qed.
+
+(* ... and credentials made for realm "" (A1 = a::p) are accepted by it *)
+Example C20_ex_empty_realm_own :
+  check_auth (fun _ => None) (fun b => Some b) (fun s => Some s)
+    (fun _ => Some [(s_username, [97]); (s_realm, []); (s_nonce, [110]); (s_uri, [47]);
+                    (s_response, [97; 58; 58; 112; 58; 110; 58; 71; 69; 84; 58; 47])])
+    default_enc (Some (s_digest ++ [32; 120])) [71; 69; 84] [] (table_of [([97], [112])])
+  = Authd [97].
+Proof. vm_compute. reflexivity. Qed.
+
+(* the hypothesis of C20_digest_wrong_realm with the empty configured realm is satisfiable *)
+Example C20_ex_wrong_realm_hyp : lookup s_realm [(s_realm, [82])] <> Some ([] : str).
+Proof. vm_compute. discriminate. Qed.
